@@ -72,9 +72,17 @@ pub fn parse_route(s: &str) -> R {
 
 fn ord_s(o: Ordering) -> &'static str { match o { Ordering::Less => "Lt", Ordering::Equal => "Eq", Ordering::Greater => "Gt" } }
 
+// Every comparison and selection is made twice: with one PaMap object per route, and with routes of equal attributes borrowing
+// one and the same PaMap (a RIB that shares attribute maps between sessions).  The two must agree; if they do not, both are shown.
+fn both(own: String, shared: String) -> String { if own == shared { own } else { format!("{own} !shared-pamap: {shared}") } }
+
 fn pair<OS: OrdStrat>(a: &R, b: &R) -> String {
+    both(pair_with::<OS>(a, b, false), pair_with::<OS>(a, b, true))
+}
+
+fn pair_with<OS: OrdStrat>(a: &R, b: &R, share: bool) -> String {
     let ra = OrdRoute::<OS>::try_new(&a.pa, a.tb);
-    let rb = OrdRoute::<OS>::try_new(&b.pa, b.tb);
+    let rb = OrdRoute::<OS>::try_new(if share && a.pa == b.pa { &a.pa } else { &b.pa }, b.tb);
     let e = format!("elig={}{}", ra.is_ok() as u8, rb.is_ok() as u8);
     match (ra, rb) {
         (Ok(x), Ok(y)) => {
@@ -98,14 +106,27 @@ impl<'a, OS: OrdStrat> Borrow<OrdRoute<'a, OS>> for Ix<'a, OS> { fn borrow(&self
 fn ix(o: Option<usize>) -> String { o.map(|i| i.to_string()).unwrap_or("-".into()) }
 
 fn list<OS: OrdStrat + Copy>(rs: &[R]) -> String {
+    both(list_with::<OS>(rs, false), list_with::<OS>(rs, true))
+}
+
+fn list_with<OS: OrdStrat + Copy>(rs: &[R], share: bool) -> String {
     let mut ords = vec![];
-    for r in rs {
-        match OrdRoute::<OS>::try_new(&r.pa, r.tb) { Ok(o) => ords.push(o), Err(_) => return "INELIGIBLE".into() }
+    for (k, r) in rs.iter().enumerate() {
+        let pa = if share { rs[..k].iter().find(|e| e.pa == r.pa).map(|e| &e.pa).unwrap_or(&r.pa) } else { &r.pa };
+        match OrdRoute::<OS>::try_new(pa, r.tb) { Ok(o) => ords.push(o), Err(_) => return "INELIGIBLE".into() }
     }
     let mk = || ords.iter().enumerate().map(|(i, o)| Ix(i, *o));
     let b = guard(|| best(mk()).map(|x| x.0));
     let bb = guard(|| { let (x, y) = best_backup(mk()); (x.map(|t| t.0), y.map(|t| t.0)) });
     let pos = guard(|| best_backup_position(mk()));
+    // the same candidates through an iterator that does not know its length (filter): the selection may not depend on that
+    let mkf = || ords.iter().enumerate().map(|(i, o)| Ix(i, *o)).filter(|_| true);
+    let bbf = guard(|| { let (x, y) = best_backup(mkf()); (x.map(|t| t.0), y.map(|t| t.0)) });
+    let posf = guard(|| best_backup_position(mkf()));
+    if bbf != bb || posf != pos {
+        let p2 = |v: Option<(Option<usize>, Option<usize>)>| v.map(|(x, y)| format!("{},{}", ix(x), ix(y))).unwrap_or("PANIC".into());
+        return format!("!iterator-kind: bb={} / {} pos={} / {}", p2(bb), p2(bbf), p2(pos), p2(posf));
+    }
     let gen = guard(|| { let (x, y) = best_backup_generic(mk()); (x.map(|t| t.0), y.map(|t| t.0)) });
     let p2 = |v: Option<(Option<usize>, Option<usize>)>| v.map(|(x, y)| format!("{},{}", ix(x), ix(y))).unwrap_or("PANIC".into());
     format!("best={} bb={} pos={} gen={}", b.map(ix).unwrap_or("PANIC".into()), p2(bb), p2(pos), p2(gen))
